@@ -232,7 +232,7 @@ pub fn variants() -> Vec<&'static Variant> {
 }
 
 pub fn run(ctx: &Ctx) -> i32 {
-    ctx.run_variant(&V, ctx.scale(60_000, 1_000_000));
+    ctx.run_variant(&V, ctx.scale(500_000, 8_000_000));
     ctx.finish(
         "exploration",
         "generated patterns (empty, adjacent, multi-byte matches) x haystacks x templates from a token grammar ($, digit runs incl. $0 $01 $10, ${name} existing/missing/duplicated/unterminated, $$, $$$, trailing $, $x, multi-byte text); oracle = splice H[last..m.start] ++ expand(T,m) over the library's own find_iter sequence with the documented template language; closure variants: identity, constant (length arithmetic), call order, first-only. Non-trivial = at least one match and a $-form that expands to non-empty text.",
